@@ -126,3 +126,30 @@ def headers_ctor_passthrough(p: Program) -> List[Item]:
     elif not bad:
         out.append(("ok", init, None, "", f"Headers.__init__ stores every value as given (names lower-cased, repeated names joined with ', ') on {len(paths)} paths"))
     return out
+
+
+def multi_header_scan_breaks(fn):
+    """Loops `for k, v in <scope>["headers"]` of `fn` that look for TWO OR MORE header names and contain a `break` / `return`:
+    whichever header comes after the one that ends the scan is never read (header order is the client's choice).
+    Returns [(loop, leaving statement, names)]."""
+    import ast as _ast
+
+    out = []
+    for lp in _ast.walk(fn.node):
+        if not isinstance(lp, (_ast.For, _ast.AsyncFor)) or "headers" not in _ast.unparse(lp.iter):
+            continue
+        names = {c.value for n in _ast.walk(lp) if isinstance(n, _ast.Compare) for c in [n.left] + n.comparators if isinstance(c, _ast.Constant) and isinstance(c.value, bytes)}
+        if len(names) < 2:
+            continue
+        for n in _ast.walk(lp):
+            if isinstance(n, (_ast.Break, _ast.Return)):
+                inner = n
+                q = getattr(n, "_parent", None)
+                nested_loop = False
+                while q is not None and q is not lp:
+                    if isinstance(q, (_ast.For, _ast.AsyncFor, _ast.While, _ast.FunctionDef, _ast.AsyncFunctionDef, _ast.Lambda)):
+                        nested_loop = True
+                    q = getattr(q, "_parent", None)
+                if not nested_loop:
+                    out.append((lp, inner, sorted(names)))
+    return out
